@@ -1,4 +1,5 @@
 import GohtVerif.Proofs.C16
+import GohtVerif.Proofs.Lemmas.WriterPos
 /-! # C07 — the source map relates identical Go text in template and generated file
 
 The composite claim is the conjunction of (a) the lexer reports the true start of every fragment,
@@ -11,6 +12,27 @@ namespace GL.C07
 theorem write_range (g : G) (s : GoStr) :
     (g.write s).2.frm = g.pos ∧ (g.write s).1.out = s :: g.out ∧ (g.write s).2.to = (g.write s).1.pos := by
   unfold G.write; simp
+
+/-- (b′) **the writer's position is the end of the text** — line = 1 + line breaks written, column =
+1 + UTF-16 code units since the last line break: true at the start, and preserved by every write whose
+current last line is well-formed UTF-8 (a rune is never cut in two by a chunk boundary; UTF-16 length
+is additive exactly then — `utf16Len_append`, built on a proved decode/encode inversion of UTF-8). -/
+theorem writer_position_initial : ({} : G).pos = posOf [] := rfl
+
+theorem writer_tracks_position (g : G) (text s : GoStr) (hpos : g.pos = posOf text)
+    (hvalid : ValidUtf8 (lastLineOf text)) : (g.write s).1.pos = posOf (text ++ s) :=
+  write_tracks_position g text s hpos hvalid
+
+/-- hence the range a write returns is the range of `s` inside the text: from the end of what was
+there to the end of what is there now -/
+theorem write_range_is_text_range (g : G) (text s : GoStr) (hpos : g.pos = posOf text)
+    (hvalid : ValidUtf8 (lastLineOf text)) :
+    (g.write s).2.frm = posOf text ∧ (g.write s).2.to = posOf (text ++ s) := by
+  obtain ⟨h1, _, h3⟩ := write_range g s
+  exact ⟨by rw [h1, hpos], by rw [h3, write_tracks_position g text s hpos hvalid]⟩
+
+/-- non-vacuity: two chunks, the second on a new line after a non-ASCII rune and an astral rune -/
+example : (posOf [97, 0xC3, 0xA9, 10, 0xF0, 0x9F, 0x98, 0x80, 98]).line = 2 ∧ (posOf [97, 0xC3, 0xA9, 10, 0xF0, 0x9F, 0x98, 0x80, 98]).col = 4 := by decide +kernel
 
 /-- (c) `Add(t, r)` registers one run per line of the literal: line `k` of the literal is related
 at source line `t.line-1+k` / target line `r.from.line-1+k`, starting at the token's / range's
@@ -53,7 +75,6 @@ example : fragsOfAdd { typ := .attrDynamicValue, lit := [97, 44, 10, 98], line :
     [⟨3, 6, 19, 30, 2⟩, ⟨4, 0, 20, 0, 1⟩] := by decide +kernel
 
 -- PLANNED: lexer_positions — for every fragment-bearing token the reported (line, col) is the UTF-16 start of a source slice equal to `lit` (valid UTF-8 input)
--- PLANNED: writer_pos_invariant — `pos` = (1 + newlines written, 1 + UTF-16 units since the last newline) for writes of valid UTF-8
 -- PLANNED: coverage — every fragment kind of the grammar reaches exactly one `Add`
 
 end GL.C07
